@@ -516,6 +516,45 @@ def _cell_index(world, pos):
     return int(pos[0] + pos[1] * w_ + pos[2] * w_ * h_)
 
 
+def sequence_case(case):
+    """Several worlds built one after the other in one process; on EACH a component is declared from a callable, a list, an
+    array and a lookup table: every cell holds the value that source assigns to THAT world's cell."""
+    from mc.engine.seams import reset_library
+    reset_library()
+    n = 0
+    built = []
+    for kind, dims in case['worlds']:
+        world = mk(new_model(seed=1), kind, dims)
+        built.append((world, kind, dims))
+    for world, kind, dims in built + built[::-1]:
+        d3 = list(dims) + [0] * (3 - len(dims))
+        ext = [max(e, 1) for e in d3]
+        table = [(x, y, z) for z in range(ext[2]) for y in range(ext[1]) for x in range(ext[0])]
+        want = [100 * x + 10 * y + z for x, y, z in table]
+        world.add_cell_component('by_pos', lambda pos, cells: 100 * pos[0] + 10 * pos[1] + pos[2])
+        world.add_cell_component('by_list', list(want))
+        world.add_cell_component('by_array', np.array(want))
+        lut = [[[100 * x + 10 * y + z for z in range(ext[2])] for y in range(ext[1])] for x in range(ext[0])]
+        world.add_cell_component('by_lookup', Envs.LookupGenerator(lut))
+        for name in ('by_pos', 'by_list', 'by_array', 'by_lookup'):
+            got = [_py(v) for v in world.cells[name]]
+            n += 1
+            if got != want:
+                k = next(i for i, (a, b) in enumerate(zip(got, want)) if a != b)
+                raise Violation(f'{kind} world {dims} (one of {len(built)} worlds built in this process), component {name}: cell '
+                                f'{k} (at {table[k]})', expected=want[k], observed=got[k])
+    return n
+
+
+def sequence_cases():
+    yield {'leg': 'sequence', 'worlds': [['grid', [11, 1]], ['grid', [1, 11]], ['grid', [12, 3]], ['grid', [1, 23]],
+                                         ['line', [111]], ['grid', [11, 10]], ['discrete', [1, 1, 10]], ['discrete', [11, 1, 0]]]}
+    yield {'leg': 'sequence', 'worlds': [['grid', [1, 11]], ['grid', [11, 1]], ['grid', [2, 13]], ['grid', [21, 3]],
+                                         ['discrete', [2, 1, 3]], ['discrete', [21, 0, 3]], ['discrete', [2, 10, 3]]]}
+    yield {'leg': 'sequence', 'worlds': [['line', [1100]], ['grid', [80, 2]], ['discrete', [3, 2, 2]], ['grid', [2, 1030]],
+                                         ['grid', [40, 3]], ['discrete', [5, 4, 3]]]}
+
+
 def redeclare_missing_cases():
     for kind, dims in (('line', [5]), ('grid', [3, 2]), ('discrete', [2, 2, 2])):
         for first in ('list', 'array', 'callable'):
@@ -649,6 +688,16 @@ def run(ctx):
         except Violation as v:
             ctx.report(case, v)
     ctx.leg('redeclare_missing', cases=nm, note='a component declared again from a source that assigns NaN / None to some cells')
+    if not ctx.small:
+        for case in sequence_cases():
+            if ctx.violations:
+                break
+            ctx.traces += 1
+            try:
+                ctx.transitions += hbfs._guard(sequence_case, case)
+            except Violation as v:
+                ctx.report(case, v)
+        ctx.leg('sequence', cases=3, note='worlds with colliding extents built in one process, four kinds of source on each')
     if not ctx.violations and not ctx.small:
         for case in ({'leg': 'many_components', 'kind': 'grid', 'dims': [3, 2], 'components': 120},
                      {'leg': 'many_components', 'kind': 'line', 'dims': [4], 'components': 260}):
@@ -672,6 +721,9 @@ def replay(case):
         return
     if case['leg'] == 'many_components':
         hbfs._guard(many_components_case, case)
+        return
+    if case['leg'] == 'sequence':
+        hbfs._guard(sequence_case, case)
         return
     if case['leg'] == 'big':
         hbfs._guard(big_world_case, case)
